@@ -360,6 +360,31 @@ fn run(a: &vhcore::Args) -> i32 {
         }
         Err(e) => vhcore::machinery_failure(&format!("calibration run failed: {e}")),
     };
+    // second calibration: a compilation of a text that was already compiled successfully (open,
+    // then save): let the worker run as soon as it can, so that two compilations happen in a row
+    let abort_checks_cached = {
+        let sc2 = [Ev::Open, Ev::Save];
+        let r0 = run_child(&sc2, &[], &work.join("calib2a")).unwrap_or_else(|e| vhcore::machinery_failure(&format!("calibration run 2a failed: {e}")));
+        let mut prefix: Vec<usize> = vec![];
+        for (alts, _) in &r0.points {
+            if let Some(k) = alts.iter().position(|(l, _)| l == "W:recv") {
+                prefix.push(k);
+                break;
+            }
+            prefix.push(0);
+        }
+        let r = run_child(&sc2, &prefix, &work.join("calib2b")).unwrap_or_else(|e| vhcore::machinery_failure(&format!("calibration run 2b failed: {e}")));
+        let labels: Vec<&str> = r.trace.iter().filter(|e| e.kind == "grant" && e.tid == 1).map(|e| e.label.as_str()).collect();
+        let starts: Vec<usize> = labels.iter().enumerate().filter(|(_, l)| **l == "W:set_compiling").map(|(i, _)| i).collect();
+        match starts.get(1) {
+            Some(from) => {
+                let to = labels[*from..].iter().position(|l| l.starts_with("W:finish_")).map(|p| p + from).unwrap_or(labels.len());
+                labels[*from..to].iter().filter(|l| **l == "W:abort_check").count() as u8
+            }
+            None => abort_checks,
+        }
+    };
+    eprintln!("[C24] calibrated retrigger polls per compilation: full={abort_checks} cached={abort_checks_cached}");
     let model_scripts: Vec<&Vec<Ev>> = scs.iter().filter(|s| s.len() <= if thorough { 4 } else { 3 }).collect();
     for sc in model_scripts {
         let name = script_name(sc);
@@ -374,6 +399,7 @@ fn run(a: &vhcore::Args) -> i32 {
                 })
                 .collect(),
             abort_checks,
+            abort_checks_cached,
         };
         let ex = vh_lsp::c24model::explore(&m, if thorough { 400 } else { 12 });
         let mut paths: Vec<(Option<Vec<&'static str>>, Vec<String>)> = ex.witnesses.iter().map(|(v, p)| (Some(v.clone()), p.clone())).collect();
@@ -440,7 +466,7 @@ fn run(a: &vhcore::Args) -> i32 {
         eprintln!("[C24] model {name}: states={} transitions={} terminals={} replayed={} diverged={diverged}", ex.states, ex.transitions, ex.terminals, paths.len());
         model_info.push(json!({"script": name, "model_states": ex.states, "model_transitions": ex.transitions, "model_terminal_states": ex.terminals, "traces_replayed_on_server": paths.len(), "diverged": diverged, "edge_cover_complete": ex.edge_cover.len() < if thorough { 400 } else { 12 }}));
     }
-    rep.set("model", json!({"abort_checks_per_compile_calibrated": abort_checks, "conforms": model_conforms, "per_script": model_info}));
+    rep.set("model", json!({"abort_checks_per_compile_calibrated": abort_checks, "abort_checks_per_cached_compile_calibrated": abort_checks_cached, "conforms": model_conforms, "per_script": model_info}));
     if !model_conforms {
         rep.cap("E-model does not conform to the server on at least one replayed trace (MODEL-DIVERGENCE): its results are ignored; the verdict rests on E-sched alone");
     }
@@ -526,6 +552,7 @@ fn replay(a: &vhcore::Args) -> i32 {
 fn modeltest(args: &[String]) -> i32 {
     let sc = parse_script(&args[0]);
     let abort_checks: u8 = args.get(1).and_then(|s| s.parse().ok()).unwrap_or(1);
+    let abort_checks_cached: u8 = args.get(2).and_then(|s| s.parse().ok()).unwrap_or(abort_checks);
     let m = vh_lsp::c24model::Model {
         script: sc
             .iter()
@@ -537,12 +564,13 @@ fn modeltest(args: &[String]) -> i32 {
             })
             .collect(),
         abort_checks,
+        abort_checks_cached,
     };
-    let ex = vh_lsp::c24model::explore(&m, 5);
+    let ex = vh_lsp::c24model::explore(&m, 14);
     println!("states={} transitions={} terminals={} witnesses={} cover={}", ex.states, ex.transitions, ex.terminals, ex.witnesses.len(), ex.edge_cover.len());
     let work = vhcore::work_dir("C24-modeltest");
     let mut paths: Vec<(String, Vec<String>)> = ex.witnesses.iter().map(|(v, p)| (format!("{v:?}"), p.clone())).collect();
-    paths.extend(ex.edge_cover.iter().take(3).map(|p| ("cover".to_string(), p.clone())));
+    paths.extend(ex.edge_cover.iter().take(14).map(|p| ("cover".to_string(), p.clone())));
     for (i, (what, p)) in paths.iter().enumerate() {
         match run_child_follow(&sc, &[], &work.join(format!("m{i}")), Some(p)) {
             Ok(r) => println!("{what}: model steps {} server steps {} server verdicts {:?}", p.len(), r.points.len(), r.verdicts.iter().map(|v| v.0.clone()).collect::<Vec<_>>()),
@@ -592,6 +620,7 @@ fn modelonly(args: &[String]) -> i32 {
         let m = mf::Model {
             script: sc.iter().map(|e| match e { Ev::Open => mf::Ev::Open, Ev::Change => mf::Ev::Change, Ev::Save => mf::Ev::Save, Ev::Wait => mf::Ev::Wait }).collect(),
             abort_checks: checks,
+            abort_checks_cached: args.get(2).and_then(|s| s.parse().ok()).unwrap_or(checks),
         };
         let ex = mf::explore(&m, 0);
         let vs: Vec<String> = ex.witnesses.iter().map(|(v, _)| format!("{v:?}")).collect();
